@@ -182,3 +182,80 @@ Proof. intros Hr. unfold spec_decode. destruct (golay_decode r) as [o|] eqn:G; c
   destruct (decode_corrects_lemma d' (N.lxor r (encode24 d')) L (lxor_lt24 _ _ Hr Hc) F) as (o & D & _).
   rewrite <- E in D. apply golay_decode_some in D. congruence.
 Qed.
+
+(** ** the statements of Properties_C04.v, over the exported names *)
+Lemma x_encode_systematic d : d < 4096 -> N.shiftr (golay_encode24 d) 12 = d.
+Proof. exact (enc24_data d). Qed.
+
+Lemma x_encode_is_spec d : d < 4096 ->
+  golay_encode24 d = spec_encode24 d /\ spec_is_codeword24 (golay_encode24 d) = true.
+Proof. intros H. split; [exact (enc24_spec d H) | exact (enc24_member d H)]. Qed.
+
+Lemma x_codeword_syndrome_zero d : d < 4096 ->
+  syndrome (encode23 d) = 0 /\ syndrome (N.shiftr (golay_encode24 d) 1) = 0.
+Proof. intros H. split; [exact (enc23_syn d H)|]. unfold golay_encode24. rewrite enc24_shr by exact H. exact (enc23_syn d H). Qed.
+
+Lemma x_codeword_even_parity d : d < 4096 ->
+  parity (golay_encode24 d) = false /\ (weight (golay_encode24 d)) mod 2 = 0.
+Proof. intros H. split; [exact (enc24_par d H) | exact (enc24_even d H)]. Qed.
+
+Lemma x_encode_linear a b : a < 4096 -> b < 4096 ->
+  golay_encode24 (N.lxor a b) = N.lxor (golay_encode24 a) (golay_encode24 b).
+Proof. exact (encode24_lxor a b). Qed.
+
+Lemma x_min_weight_8 d : d < 4096 -> d <> 0 -> 8 <= weight (golay_encode24 d).
+Proof. intros H NZ. unfold golay_encode24. rewrite weight_popcount by (apply enc24_lt; exact H). exact (enc24_w8 d H NZ). Qed.
+
+Lemma x_min_distance_8 a b : a < 4096 -> b < 4096 -> a <> b ->
+  8 <= hamming (golay_encode24 a) (golay_encode24 b).
+Proof. intros Ha Hb NE. unfold golay_encode24, hamming.
+  rewrite weight_popcount by (apply lxor_lt24; apply enc24_lt; assumption). exact (min_distance_8 a b Ha Hb NE). Qed.
+
+Lemma x_lut_sorted_distinct :
+  length lut_stores = 2048%nat /\ NoDup lut_stores /\ lut_unsorted = lut_stores /\
+  StronglySorted N.lt (sort lut_unsorted) /\ LUT = map makeSyndromeMapEntry (sort lut_unsorted) /\
+  length LUT = 2048%nat /\ StronglySorted N.lt (map (fun e => N.shiftr (fst e) 8) LUT).
+Proof. split; [destruct lut_stores_fill as [A B]; rewrite A; exact B|]. split; [exact lut_keys_distinct|].
+  split; [exact lut_unsorted_is_stores|]. split; [exact sorted_keys_sorted|]. split; [exact LUT_is_sorted_keys|].
+  split; [exact lut_length | exact lut_syndromes_sorted]. Qed.
+
+Lemma x_decode_corrects d e : d < 4096 -> e < 2 ^ 24 -> weight e <= 3 ->
+  exists o, golay_decode (N.lxor (golay_encode24 d) e) = Some o /\ N.shiftr o 12 = d.
+Proof. intros Hd He W. destruct (decode_corrects_lemma d e Hd He W) as (o & D & S).
+  exists o. split; [apply golay_decode_some; exact D | exact S]. Qed.
+
+Lemma x_decode_rejects4 d e : d < 4096 -> e < 2 ^ 24 -> weight e = 4 ->
+  golay_decode (N.lxor (golay_encode24 d) e) = None.
+Proof. intros Hd He W. unfold golay_decode, golay_encode24. rewrite (decode_rejects4_lemma d e Hd He W). reflexivity. Qed.
+
+Lemma x_decode_sound r o : r < 2 ^ 24 -> golay_decode r = Some o ->
+  exists d, d < 4096 /\ N.shiftr o 12 = d /\ hamming r (golay_encode24 d) <= 3 /\
+    (forall d', d' < 4096 -> hamming r (golay_encode24 d') <= 3 -> d' = d).
+Proof. intros Hr G. apply golay_decode_some in G. destruct (decode_sound_lemma r o Hr G) as (_ & Hd & Hh & _).
+  exists (N.shiftr o 12). split; [exact Hd|]. split; [reflexivity|]. split; [exact Hh|].
+  intros d' Hd' Hh'. exact (close_codeword_unique r d' _ Hr Hd' Hd Hh' Hh). Qed.
+
+Lemma x_decode_output_shape r o : r < 2 ^ 24 -> golay_decode r = Some o ->
+  o < 2 ^ 24 /\ (o = golay_encode24 (N.shiftr o 12) \/ o = N.lxor (golay_encode24 (N.shiftr o 12)) 1).
+Proof. intros Hr G. apply golay_decode_some in G. destruct (decode_sound_lemma r o Hr G) as (Ho & Hd & _ & X).
+  split; [exact Ho|]. unfold golay_encode24. set (d := N.shiftr o 12) in *.
+  assert (A : N.lxor o (encode24 d) = b2n (xorb (N.testbit o 0) (N.testbit (encode24 d) 0))).
+  { apply agree_above_bit0. rewrite enc24_shr by exact Hd. exact X. }
+  assert (E : o = N.lxor (encode24 d) (N.lxor o (encode24 d))) by (generalize (encode24 d); intros c; xor_bits).
+  rewrite A in E. destruct (xorb (N.testbit o 0) (N.testbit (encode24 d) 0)); cbn [b2n] in E.
+  - right. exact E.
+  - left. rewrite N.lxor_0_r in E. exact E. Qed.
+
+Lemma x_decode_translate d e : d < 4096 -> e < 2 ^ 24 ->
+  golay_decode (N.lxor (golay_encode24 d) e) = option_map (N.lxor (golay_encode24 d)) (golay_decode e).
+Proof. intros Hd He. unfold golay_decode, golay_encode24. rewrite (decode_translate d e Hd He).
+  destruct (decode e); reflexivity. Qed.
+
+Lemma x_decode_accepts_iff r : r < 2 ^ 24 ->
+  (exists o, golay_decode r = Some o) <-> (exists d, d < 4096 /\ hamming r (golay_encode24 d) <= 3).
+Proof. intros Hr. split.
+- intros [o G]. destruct (x_decode_sound r o Hr G) as (d & Hd & _ & Hh & _). exists d. split; assumption.
+- intros (d & Hd & Hh). pose proof (enc24_lt d Hd) as Hc.
+  assert (E : r = N.lxor (golay_encode24 d) (N.lxor r (golay_encode24 d))) by (generalize (golay_encode24 d); intros c; xor_bits).
+  destruct (x_decode_corrects d (N.lxor r (golay_encode24 d)) Hd (lxor_lt24 _ _ Hr Hc) Hh) as (o & D & _).
+  rewrite <- E in D. exists o. exact D. Qed.
